@@ -3,7 +3,8 @@
 Space   : product-exhaustive.  Register size n; gate alphabet {X, H, Rz, CX, A2, A3, I_X, N1} x every
           ordered tuple of distinct qubits of the right arity x theta in {0.3, -1.1}; every gate
           sequence up to a length; every structural embedding of the sequence from a menu (plain,
-          one gate in `loop 2`, all gates in a macro with qubit and angle parameters, qubits written
+          one gate in `loop c` for c in {0,1,2,3} (literal; and `let k` valued 3, or 2 overridden
+          to 0 through fill_in_let / through parse), all gates in a macro with qubit and angle parameters, qubits written
           through an alias of a strided alias, angles given by lets with and without override, two
           adjacent gates on disjoint qubits in a parallel block in both branch orders, a
           `subcircuit` block, the whole prepare/measure section inside `loop 2`); the embedded
@@ -299,9 +300,42 @@ def alias_header(n):
 SECOND_LEVEL = ("ea", "eb", "oa")
 
 
+LOOP_COUNTS = (0, 1, 2, 3)
+LETLOOP = {  # family -> (declared value of `let k`, override value or None, route)
+    "letloop": (3, None, None),
+    "letloopov-pass": (2, 0, "fill_in_let"),
+    "letloopov-parse": (2, 0, "parse"),
+}
+LETLOOP_MAX_LEN = 2
+_EMB = re.compile(r"^(?:(loop)(\d)at(\d+)|(letloop|letloopov-pass|letloopov-parse)at(\d+)|(r?par)(\d+))$")
+
+
+def parts(emb):
+    """embedding name -> (base name, effective loop count or None, gate position or None)"""
+    m = _EMB.match(emb)
+    if not m:
+        return emb, None, None
+    if m.group(1):
+        return "loop", int(m.group(2)), int(m.group(3))
+    if m.group(4):
+        decl, ov, _route = LETLOOP[m.group(4)]
+        return m.group(4), decl if ov is None else ov, int(m.group(5))
+    return m.group(6), None, int(m.group(7))
+
+
+def emb_name(base, count, idx):
+    if base == "loop":
+        return "loop%dat%d" % (count, idx)
+    if base in LETLOOP:
+        return "%sat%d" % (base, idx)
+    if idx is not None:
+        return "%s%d" % (base, idx)
+    return base
+
+
 def family(emb):
-    f = re.sub(r"\d+$", "", emb)
-    return "par" if f == "rpar" else f
+    base = parts(emb)[0]
+    return "par" if base == "rpar" else base
 
 
 def embeddings(seq):
@@ -310,7 +344,9 @@ def embeddings(seq):
     out = ["plain"]
     if L == 0:
         return out
-    out += ["loop%d" % i for i in range(L)]
+    out += ["loop%dat%d" % (c, i) for i in range(L) for c in LOOP_COUNTS]
+    if L <= LETLOOP_MAX_LEN:
+        out += ["%sat%d" % (f, i) for i in range(L) for f in LETLOOP]
     out += ["macro", "alias"]
     if any(g[2] for g in seq):
         out += ["let", "letov-pass", "letov-parse"]
@@ -325,12 +361,12 @@ def embeddings(seq):
 def expected_expansion(emb, seq):
     """What the embedded section executes, derived directly from the embedding's definition
     (second route, compared with the interpreter's answer on the built program)."""
-    if emb.startswith("loop"):
-        i = int(emb[4:])
-        return list(seq[:i]) + [seq[i], seq[i]] + list(seq[i + 1:])
-    if emb.startswith("rpar"):
+    base, count, i = parts(emb)
+    if base == "loop" or base in LETLOOP:
+        # the body is applied `count` times (0 = never)
+        return list(seq[:i]) + [seq[i]] * count + list(seq[i + 1:])
+    if base == "rpar":
         # branches written in the other order; serialised as written (the two commute)
-        i = int(emb[4:])
         return list(seq[:i]) + [seq[i + 1], seq[i]] + list(seq[i + 2:])
     return list(seq)
 
@@ -405,10 +441,17 @@ def build(case):
     else:
         stmts = [_plain_gate(g) for g in seq]
         if fam == "loop":
-            i = int(emb[4:])
-            stmts[i] = ("loop", 2, ("seq", (stmts[i],)))
+            _b, count, i = parts(emb)
+            stmts[i] = ("loop", count, ("seq", (stmts[i],)))
+        elif fam in LETLOOP:
+            decl, ov, route = LETLOOP[fam]
+            i = parts(emb)[2]
+            header.append(("let", "k", decl))
+            if ov is not None:
+                override = {"k": ov}
+            stmts[i] = ("loop", "k", ("seq", (stmts[i],)))
         elif fam == "par":
-            i = int(re.search(r"\d+$", emb).group())
+            i = parts(emb)[2]
             a, b = stmts[i], stmts[i + 1]
             if emb.startswith("rpar"):
                 a, b = b, a
@@ -444,7 +487,8 @@ class C03(Check):
     rule = (
         "product-exhaustive: register size x every gate sequence up to the length bound over "
         "{X,H,Rz,CX,A2,A3,I_X,N1} x every ordered tuple of distinct qubits x theta in {0.3,-1.1} x "
-        "every applicable embedding (plain, loop 2 around one gate, macro with qubit+angle parameters, "
+        "every applicable embedding (plain, loop c around one gate for c in 0..3 literal and let-valued with/without "
+        "override to 0, macro with qubit+angle parameters, "
         "alias of a strided alias, let, let+override via fill_in_let / via parse, parallel block in "
         "both branch orders, subcircuit block, whole section inside loop 2) x position of the embedded section (first/second of two "
         "subcircuits); non-trivial = the reference state of the embedded section differs from e_0; "
@@ -455,15 +499,17 @@ class C03(Check):
         "tolerance 1e-9 per amplitude and per probability",
         "parallel branches are only generated on disjoint written qubits, where every interleaving gives the same product",
         "embeddings are applied one at a time (combinations of let-override with subcircuit blocks etc. belong to C05/C09/C10)",
-        "the emulator is run through run_jaqal_circuit with the default backend; loops have count 2",
+        "the emulator is run through run_jaqal_circuit with the default backend; loop counts 0..3; the loop around a whole section has count 2",
     )
 
     def bounds(self, tier):
         if tier == "quick":
             return {"n": [1, 2, 3], "max_len_full_alphabet": 2, "len3_reduced_alphabet_n": [],
-                    "thetas": list(THETAS), "loop_count": 2, "subcircuits_per_program": 2}
+                    "thetas": list(THETAS), "loop_counts": list(LOOP_COUNTS),
+                    "let_loop_counts": [3, "2 overridden to 0"], "subcircuits_per_program": 2}
         return {"n": [1, 2, 3, 4], "max_len_full_alphabet": 2, "len3_reduced_alphabet_n": [1, 2, 3],
-                "reduced_alphabet": list(REDUCED), "thetas": list(THETAS), "loop_count": 2,
+                "reduced_alphabet": list(REDUCED), "thetas": list(THETAS), "loop_counts": list(LOOP_COUNTS),
+                "let_loop_counts": [3, "2 overridden to 0"], "let_loop_max_len": LETLOOP_MAX_LEN,
                 "subcircuits_per_program": 2}
 
     # ------------------------------------------------------------------ enumeration
@@ -502,9 +548,10 @@ class C03(Check):
         def ok(c):
             return c[1] in embeddings(c[3])
 
+        base, count, at = parts(emb)
+
         def idx():
-            m = re.search(r"\d+$", emb)
-            return int(m.group()) if m else None
+            return at
 
         cands = []
         # drop one gate
@@ -513,12 +560,16 @@ class C03(Check):
             e = emb
             k = idx()
             if k is not None:
-                span = (k,) if fam == "loop" else (k, k + 1)
+                span = (k, k + 1) if fam == "par" else (k,)
                 if i in span:
                     continue
                 if i < k:
-                    e = re.sub(r"\d+$", str(k - 1), emb)
+                    e = emb_name(base, count, k - 1)
             cands.append((n, e, pos, rest))
+        # smaller literal loop count
+        if base == "loop":
+            for c in range(count):
+                cands.append((n, emb_name(base, c, at), pos, seq))
         # embedded section first
         if pos:
             cands.append((n, emb, 0, seq))
